@@ -13,7 +13,6 @@ import gen_models
 import gen_terms
 
 PROP = 'C18'
-F_S11 = 'S11-fit-quantile-expectile-saturates'
 F_HALF = 'C18-half-expectile-ridge-not-doubled'
 HEADER = """From Coq Require Import List ZArith Bool PrimFloat.
 From PG Require Import Base.Ops Model.C18Check.
@@ -229,12 +228,12 @@ def fq_coq_case(quantile, tol, max_iter, rec):
 
 
 def probe_trace(res, inp, quantile, tol, max_iter, rec, gam, X, y):
-    """the property statement itself on the recorded run; returns True when the S11 finding was hit"""
+    """the property statement itself on the recorded run; returns True when the run ended through the stall exit
+    (the bracket could not be halved any further in binary64)"""
     def viol(what, expected, observed, finding=None):
         res.violations.append(dict(what=what, input=inp, expected=expected, observed=observed, finding=finding))
     es = [rec['e0']] + rec['refit_expectiles']
     rs = rec['ratios']
-    s11 = False
     mn, mx = 0.0, 1.0          # the bracket the property describes, maintained independently of the implementation
     for k in range(len(rec['refit_expectiles'])):
         up = rs[k] < quantile
@@ -247,40 +246,44 @@ def probe_trace(res, inp, quantile, tol, max_iter, rec, gam, X, y):
             viol('bisection step does not move the expectile to the midpoint of the bracket on the side indicated by ratio - quantile',
                  dict(direction='up' if up else 'down', bracket=[mn, mx], midpoint=mid), dict(step=k, ratio=rs[k], expectile_before=es[k], expectile_after=es[k + 1]))
         elif not (mn < mid < mx) or not (0.0 < mid < 1.0):
-            s11 = True         # the correctly rounded midpoint of a non-empty bracket collapsed onto an end point: binary64 saturation
+            # the correctly rounded midpoint collapsed onto an end of the bracket (binary64 saturation, former S11): it must not be stored
+            viol('fit_quantile stored an expectile that is not strictly inside its bracket / (0,1)', 'stop: the bracket cannot be halved any further',
+                 dict(step=k, bracket=[mn, mx], expectile_after=es[k + 1]))
         elif (es[k + 1] > es[k]) != up:
             viol('bisection step moves the expectile away from the requested quantile', 'expectile %s' % ('up' if up else 'down'),
                  dict(step=k, ratio=rs[k], expectile_before=es[k], expectile_after=es[k + 1]))
     if rec['error'] is not None:
-        if isinstance(rec['error'], ValueError) and s11:
-            viol('fit_quantile: the bisected expectile left (0,1) in binary64 and the refit raised ValueError before the budget was used',
-                 'expectile strictly inside (0,1); stop within tol or after max_iter steps',
-                 dict(error=str(rec['error']), expectile=rec['final_e'], refits=rec['refits'], max_iter=max_iter, last_ratio=rs[-1] if rs else None), finding=F_S11)
-        else:
-            viol('fit_quantile raised', 'a fitted model', '%s: %s' % (type(rec['error']).__name__, rec['error']))
-        return s11
-    if s11:
-        viol('fit_quantile: expectile not strictly inside (0,1)', 'strictly inside', dict(expectiles=es[-3:]), finding=F_S11)
+        viol('fit_quantile raised', 'a fitted model', dict(error='%s: %s' % (type(rec['error']).__name__, rec['error']), expectile=rec['final_e'], refits=rec['refits'],
+                                                         max_iter=max_iter, last_ratio=rs[-1] if rs else None))
+        return False
+    if not (0.0 < rec['final_e'] < 1.0) or rec['final_e'] != es[-1]:
+        viol('fit_quantile left the model with an expectile that is not the last fitted one strictly inside (0,1)', es[-1], rec['final_e'])
     final_ratio = float(quiet(gam._get_quantile_ratio, X, y))
     exact = Fraction(int(np.sum(quiet(gam.predict, X) > y)), len(y))
     if frac_of_float(final_ratio) != frac_of_float(float(exact.numerator) / exact.denominator):
         viol('_get_quantile_ratio is not the fraction of training targets below the prediction', float(exact), final_ratio)
     within = abs(frac_of_float(final_ratio) - frac_of_float(quantile)) <= frac_of_float(tol)
-    if not (within or rec['refits'] == max_iter):
-        viol('fit_quantile returned a model that is neither within tol of the quantile nor out of budget', '|ratio - quantile| <= tol or refits = max_iter',
-             dict(final_ratio=final_ratio, refits=rec['refits']))
+    # third legitimate exit: the next midpoint equals an end of the bracket, i.e. no representable expectile is left to try
+    stalled = False
+    if not within and len(rs) == rec['refits'] + 1 and rec['refits'] < max_iter:
+        if rs[-1] < quantile:
+            mn = es[-1]
+        else:
+            mx = es[-1]
+        stalled = (mx + mn) / 2.0 in (mn, mx)
+    if not (within or rec['refits'] == max_iter or stalled):
+        viol('fit_quantile returned a model that is neither within tol of the quantile nor out of budget (and the bracket could still be halved)',
+             '|ratio - quantile| <= tol or refits = max_iter', dict(final_ratio=final_ratio, refits=rec['refits'], bracket=[mn, mx]))
     if rec['refits'] > max_iter:
         viol('fit_quantile made more refits than max_iter', '<= %d' % max_iter, rec['refits'])
-    if rec['refits'] < max_iter and not within:
-        viol('fit_quantile stopped early although the ratio is not within tol', 'within tol', dict(final_ratio=final_ratio))
-    return s11
+    return stalled
 
 
 S11_X = [[v] for v in np.linspace(0, 1, 12)]
 S11_Y = [0.1, 0.08, 0.73, 0.76, 0.74, 1.19, 0.61, 0.84, 0.67, 0.57, 0.09, 0.39]
 
 
-def s11_witness(variant=0):
+def s11_witness(variant=0):   # S11 was repaired in /repo (ce282d1): these are now regression probes
     """tiny data set, a quantile the fit cannot reach from below, tol below the resolution 1/12 of the ratio"""
     import pygam
     from pygam import s
@@ -302,7 +305,7 @@ def run(res):
                 '(c) fit_quantile traces: ExpectileGAM.fit and _get_quantile_ratio are wrapped from the harness; quantile uniform(0.02,0.98) or extreme, tol in {0.05,0.01,0.001,1e-9}, '
                 'max_iter 1..25, starting expectile random, model fitted or not beforehand; the recorded ratios are fed to the binary64 bisection machine built from the generated loop '
                 'pieces and Coq compares the expectile sequence bit for bit, the number of refits, ValueError or not and the final expectile; the property statement is probed directly '
-                '(final ratio within tol or budget used, direction of each step, expectile strictly inside (0,1)).  (d) argument rejection of quantile / tol / max_iter.  (e) the S11 witnesses.')
+                '(final ratio within tol or budget used or the bracket cannot be halved any further, direction of each step, expectile strictly inside (0,1)).  (d) argument rejection of quantile / tol / max_iter.  (e) regression probes for the repaired S11: the former witnesses (12 points, quantile 0.999, tol 1e-9, max_iter 100) must stop through the stall exit without ValueError, expectile strictly inside (0,1).')
     common.standard_prove(res, 'Props/C18.v', gen_targets=['links', 'dists', 'stats', 'fitquantile'], extra=['Model/C18Check.vo'])
     warnings.simplefilter('ignore')
     import pygam
@@ -334,11 +337,11 @@ def run(res):
         if rec['error'] is not None and not rec['ratios']:
             res.count('trace: first fit raised %s' % type(rec['error']).__name__)
             continue
-        probe_trace(res, inp, quantile, tol, max_iter, rec, gam, X, y)
+        st_exit = probe_trace(res, inp, quantile, tol, max_iter, rec, gam, X, y)
         cases.append(fq_coq_case(quantile, tol, max_iter, rec))
         meta.append(dict(kind='trace', quantile=quantile, tol=tol, max_iter=max_iter, e0=rec['e0'], ratios=rec['ratios'], expectiles=rec['refit_expectiles'],
                          refits=rec['refits'], describe=gen_models.describe(scn)))
-        stop = 'budget' if rec['refits'] == max_iter else ('within-tol' if rec['error'] is None else 'error')
+        stop = 'budget' if rec['refits'] == max_iter else ('error' if rec['error'] is not None else ('stall' if st_exit else 'within-tol'))
         res.count('trace stop:' + stop)
         res.count('trace refits:%s' % ('0' if rec['refits'] == 0 else ('1-3' if rec['refits'] <= 3 else '4+')))
         res.case(('trace', i), sample=dict(quantile=quantile, tol=tol, max_iter=max_iter, ratios=rec['ratios'][:6], expectiles=rec['refit_expectiles'][:6]) if i in (0, 3) else None,
@@ -360,16 +363,20 @@ def run(res):
                                        expected='ValueError before any fit' if expected else 'accepted', observed=repr(rec['error'])))
         cases.append('(ArgCase %s %s %s %s)' % (flit(q), flit(t), common.zlit(mi), common.coq_bool(rejected)))
         meta.append(dict(kind='args', quantile=q, tol=t, max_iter=mi))
-    # (e) S11: the witness of C18_bisect_float_refuted replayed on the implementation
+    # (e) regression probes for the repaired S11 (witness of C18_bisect_float_saturation_stops replayed on the implementation):
+    #     the call must terminate without ValueError, through the stall exit, with an expectile strictly inside (0,1)
     for variant in (0, 1):
         gam, X, y, quantile, tol, max_iter = s11_witness(variant)
         rec = traced_fit_quantile(gam, X.copy(), y.copy(), quantile, max_iter, tol, None)
         inp = dict(witness='harness/props/c18.py:s11_witness(%d)' % variant, X=X.tolist(), y=y.tolist(), quantile=quantile, tol=tol, max_iter=max_iter, model="ExpectileGAM(s(0))")
-        hit = probe_trace(res, inp, quantile, tol, max_iter, rec, gam, X, y)
-        res.count('S11 witness reproduced' if hit else 'S11 witness did not reproduce')
-        res.case(('s11', variant), sample=dict(refits=rec['refits'], final_expectile=rec['final_e'], error=str(rec['error'])), nontrivial=True)
+        stalled = probe_trace(res, inp, quantile, tol, max_iter, rec, gam, X, y)
+        res.count('saturation probe: stopped by the stall exit' if stalled else 'saturation probe: other exit')
+        res.case(('saturation', variant), sample=dict(refits=rec['refits'], final_expectile=rec['final_e'], error=str(rec['error'])), nontrivial=True)
+        if rec['error'] is None and not (0.0 < rec['final_e'] < 1.0 and rec['refits'] < max_iter and stalled):
+            res.violations.append(dict(what='saturation probe (former S11 witness) did not stop through the stall exit with an expectile strictly inside (0,1)', finding=None,
+                                       input=inp, expected='stall exit after 52 refits, expectile 1 - 2^-53', observed=dict(refits=rec['refits'], expectile=rec['final_e'])))
         cases.append(fq_coq_case(quantile, tol, max_iter, rec))
-        meta.append(dict(kind='trace', s11=variant, quantile=quantile, tol=tol, max_iter=max_iter, refits=rec['refits']))
+        meta.append(dict(kind='trace', saturation_probe=variant, quantile=quantile, tol=tol, max_iter=max_iter, refits=rec['refits']))
 
     with common.CaseDir(PROP) as cd:
         failing, errors = common.run_bool_cases(cd, HEADER, cases, 'check_case', shard=max(4, len(cases) // 16 + 1))
@@ -390,7 +397,8 @@ def run(res):
                                    input=m, observed='check_code = %s' % codes.get(i), expected='0'))
     res.extra['tolerances'] = {'balance': '(10 tol + 2e-7) * sum w (|y| + |mu|), exact rational evaluation', 'expectile 0.5 vs LinearGAM(2 lam)': '1e-6 of max|y| on fitted values',
                                'fit_quantile expectile sequence': 'exact binary64 equality', 'ratio': 'exact'}
-    res.trusted.append('PrimFloat primitives (kernel-implemented IEEE binary64 add/sub/div/abs/compare) are reported by Print Assumptions for C18_bisect_float_refuted; no Floats.FloatAxioms are used')
+    res.trusted.append('PrimFloat primitives (kernel-implemented IEEE binary64 add/sub/div/abs/compare) are reported by Print Assumptions for C18_bisect_float_saturation_stops; no Floats.FloatAxioms are used')
+    res.trusted.append('Flocq (binary64 round-to-nearest-even as FLT rounding) for C18_binary64_rounding_contract; the link between that rounded-real model and the PrimFloat machine is covered by the bit-exact trace correspondence, not proved')
     res.trusted.append('the refits inside fit_quantile are an oracle (ratio sequence) in the bisection theorems: nothing is proved about how a refit changes the ratio')
 
 
